@@ -177,7 +177,9 @@ def firstOf (t : UInt8) (b : Bytes) : Option Bytes := ((attrsOf b).find? (·.1 =
 
 /-- C01/C03 on a forwarded request: the first User-Password decrypts to the client's plaintext -/
 def userPwdVerdict (cc : World.CliConf) (sc : World.SrvConf) (pkt fwd : Bytes) : String :=
-  if rwTouches cc.rwIn 2 || rwTouches sc.rwOut 2 then "ok" else
+  -- User-Password exists in Access-Requests only (an Accounting-Request's authenticator is computed over the
+  -- finished packet, so nothing in it can be hidden under it)
+  if rwTouches cc.rwIn 2 || rwTouches sc.rwOut 2 || codeOf pkt != 1 then "ok" else
   match firstOf 2 pkt with
   | none => "ok"
   | some v =>
